@@ -2,6 +2,8 @@
 import AslModel.Drv.Util
 import AslModel.Interp
 import AslModel.Lite
+import AslModel.Drv.Templates
+import AslModel.Drv.Choice
 namespace Asl.Drv.Interp
 open Asl Asl.Drv
 
@@ -55,8 +57,51 @@ def outcomeJson (o : Outcome) : Json :=
         (S "cause", optJ o.cause), (S "failState", .bool o.failState),
         (S "trace", .arr (o.trace.map .str)), (S "multiFail", .bool o.multiFail)]
 
+mutual
+/-- every payload template and every Choice rule of the definition is inside what the full
+Template / Choice models support (definite paths; no Hash / random intrinsics) -/
+def fullSupported : Nat → Json → Bool
+  | 0, _ => false
+  | fuel + 1, .obj kvs => fullSupportedM fuel kvs
+  | fuel + 1, .arr xs => fullSupportedL fuel xs
+  | _, _ => true
+def fullSupportedL : Nat → List Json → Bool
+  | 0, _ => false
+  | _ + 1, [] => true
+  | fuel + 1, x :: xs => fullSupported fuel x && fullSupportedL fuel xs
+def fullSupportedM : Nat → List (Str × Json) → Bool
+  | 0, _ => false
+  | _ + 1, [] => true
+  | fuel + 1, (k, v) :: kvs =>
+    (if k = S "Parameters" || k = S "ResultSelector" || k = S "ItemSelector" then
+       Templates.tplSupported Quirks.none v
+     else if k = S "Choices" then
+       (match v with
+        | .arr rs => (Choice.decodeChoices rs).isSome
+        | _ => false)
+     else if k = S "Result" then true
+     else fullSupported fuel v) && fullSupportedM fuel kvs
+end
+
+/-- the full Choice model as the interpreter's `choose` parameter -/
+def fullChoose (state input _raw ctx : Json) : Option Str :=
+  match Choice.decodeChoices (listOf (state.get "Choices")) with
+  | some rules => firstMatch { input := input, ctx := ctx } rules
+  | none => none
+
+def fullTmpl (input ctx t : Json) : Except PErr Json :=
+  (evalTemplate (Templates.oracles []) Quirks.none input ctx t).map normalise
+
 def handle : List String → String
   | ["run", asl, input, ctx, oracle, fuel] =>
+    match rd asl, rd input, rd ctx, rd oracle, fuel.toNat? with
+    | some a, some i, some c, some o, some f =>
+      if !fullSupported 200 a then "unsupported"
+      else
+        let env : Env := { tmpl := fullTmpl, choose := fullChoose, task := oracleFn o }
+        "ok\t" ++ js (outcomeJson (run env f a i c))
+    | _, _, _, _, _ => "unsupported"
+  | ["runlite", asl, input, ctx, oracle, fuel] =>
     match rd asl, rd input, rd ctx, rd oracle, fuel.toNat? with
     | some a, some i, some c, some o, some f =>
       if !Lite.machineSupported 200 a then "unsupported"
